@@ -158,6 +158,7 @@ def _build(cfg):
         outs.update(halt_enable=e0.clear_endpoint_halt_out.enable, halt_direction=e0.clear_endpoint_halt_out.direction,
                     halt_number=e0.clear_endpoint_halt_out.number)
 
+    extra_domains = set()          # further clock domains used by endpoints (clocked in phase with "usb")
     for e in cfg.get("endpoints", []):
         kind, n = e["kind"], e["ep"]
         if kind == "stream_in":
@@ -179,7 +180,13 @@ def _build(cfg):
             outs.update({p + "valid": ep.stream.valid, p + "payload": ep.stream.payload, p + "first": ep.stream.first,
                          p + "last": ep.stream.last})
         elif kind == "status_in":
-            ep = USBSignalInEndpoint(width=e["width"], endpoint_number=n, endianness=e.get("endianness", "little"))
+            sd = e.get("signal_domain", "usb")
+            if sd != "usb":
+                extra_domains.add(sd)
+                ep = USBSignalInEndpoint(width=e["width"], endpoint_number=n, endianness=e.get("endianness", "little"),
+                                         signal_domain=sd)
+            else:
+                ep = USBSignalInEndpoint(width=e["width"], endpoint_number=n, endianness=e.get("endianness", "little"))
             p = f"st{n}_"
             ins.update({p + "signal": ep.signal})
             outs.update({p + "read_complete": ep.status_read_complete})
@@ -223,6 +230,8 @@ def _build(cfg):
                     spy_halt_number=i.clear_endpoint_halt_in.number)
 
     period = 1 / 60e6 if variant == "V2" else 1 / 12e6
+    # (a status endpoint's `signal_domain` only names where its input comes from: the endpoint itself clocks nothing in that
+    # domain, so no further clock is needed; the scheduler changes such inputs on usb clock edges)
     bench = make_bench(dev, clocks={"usb": period}, main="usb", ins=ins, outs=outs)
     bench.info = info
     return bench
